@@ -130,6 +130,7 @@ static volatile int program_global;
 static int probe_fn(void) { return (int)mock(); }
 static void setter_fn(int *out) { mock(out); }
 
+static void green_body(void) { assert_that(1, is_equal_to(1)); }
 static void late_failure(void) { assert_that(0, is_equal_to(1)); }      /* a check that fails in an exit handler of the test's process */
 static int late_n;
 static void late_many(void) { for (int i = 0; i < late_n; i++) assert_that(1, is_equal_to(1)); assert_that(0, is_equal_to(1)); }      /* many checks, then a failing one, in an exit handler */
@@ -263,6 +264,7 @@ int main(int argc, char **argv) {
     for (int i = 0; i < 256; i++) { char nm[16]; snprintf(nm, sizeof nm, "mf%d", i); mock_names[i] = strdup(nm); }
 
     ActC *pre = NULL; int npre = 0;
+    int rerun_green = 0;
     char again_value[64] = "", again_mode[256] = "";
     TestSuite *stack[MAXS];
     static char paths[MAXS][16384];
@@ -283,6 +285,8 @@ int main(int argc, char **argv) {
             if (sp > 0) { add_suite_(stack[sp - 1], strdup(name), s); snprintf(paths[sp], sizeof paths[sp], "%s/%s", paths[sp - 1], name); }
             else { root = s; snprintf(paths[sp], sizeof paths[sp], "%s", name); }
             stack[sp++] = s;
+        } else if (!strncmp(buf, "rerun", 5)) {
+            rerun_green = 1;      /* after the run, a second run with the SAME reporter: one suite with one passing test */
         } else if (!strncmp(buf, "again ", 6)) {
             sscanf(buf, "again %63s %255s", again_value, again_mode);
         } else if (!strncmp(buf, "pre ", 4)) {
@@ -362,6 +366,15 @@ int main(int argc, char **argv) {
         if (!strcmp(again_mode, "fork")) { unsetenv("CGREEN_NO_FORK"); status = run_test_suite(root, second); }
         else if (!strcmp(again_mode, "inproc")) { setenv("CGREEN_NO_FORK", "1", 1); status = run_test_suite(root, second); }
         else status = run_single_test(root, again_mode + 7, second);
+        if (getpid() != main_pid) _exit(77);
+    }
+    if (rerun_green) {
+        static CgreenTest green_spec = { 0, &defaultContext, "green", &green_body, "scenario", 1 };
+        TestSuite *second_suite = create_named_test_suite_("second", "scenario", 1);
+        add_test_(second_suite, "green", &green_spec);
+        FILE *fs = fopen("status1", "w"); fprintf(fs, "returned %d\n", status); fclose(fs);
+        unsetenv("CGREEN_NO_FORK");
+        status = run_test_suite(second_suite, reporter);
         if (getpid() != main_pid) _exit(77);
     }
     FILE *st = fopen("status", "w");
